@@ -871,7 +871,14 @@ func translate(ans string) (canon string, fuelOut, anomaly bool, err error) {
 		}
 		infos = strings.Join(out, ";")
 	}
-	return head + " | " + infos + " | " + parts[2], h[5] == "1", h[6] == "1", err
+	return head + " | " + infos + " | " + parts[2], h[5] == "1", h[6] == "1" || h[6] == "3", err
+}
+
+// nmpOutFlag reads bit 1 of the flag field of a `go` answer: the ghost flag `St.nmpOut` of the
+// skeleton (the mate branch of null-move pruning returned a beta below -Inf+ply in this search).
+func nmpOutFlag(ans string) bool {
+	h := strings.Fields(strings.Split(ans, " | ")[0])
+	return len(h) == 7 && (h[6] == "2" || h[6] == "3")
 }
 
 // saneVerdict reads the ` | nmpsane=…` suffix of a `gog` answer: checked, held, and the guarded
@@ -1494,6 +1501,12 @@ func main() {
 				}
 				if anomaly {
 					e.r.Count("model:anomaly-flag", 1)
+				}
+				e.r.Count("model:nmpOut-checked", 1)
+				if nmpOutFlag(ans) {
+					e.r.Count("model:nmpOut-raised", 1)
+					e.r.Count("model:nmpOut-raised:"+sc.kind, 1)
+					e.r.Sample(map[string]any{"nmpOut-raised": fmt.Sprintf("script %d step %d", i, j), "kind": sc.kind, "ops": sc.ops(len(sc.steps)), "answer": ans}, 20)
 				}
 				if checked, held, guarded := saneVerdict(ans); checked {
 					e.r.Count("nmpsane-checked", 1)
